@@ -174,7 +174,7 @@ SUBS = [
         check_read,
         strategy=read_case,
         examples={"quick": 450, "thorough": 2500},
-        shards={"quick": 8, "thorough": 16},
+        shards={"quick": 16, "thorough": 16},
         fuzz={"thorough": 150},
     ),
 ]
